@@ -292,6 +292,120 @@ pub fn fat_edge_inputs(thorough: bool) -> Vec<Input> {
     v
 }
 
+/// Inputs that make the crate's *own* encoder emit distance codes of every length 1..=15:
+/// trigram-free filler with 3-byte repeats planted at one distance per distance class 2..=16 in
+/// Fibonacci proportions (987, 610 ... 2, 1), and one 200-byte repeat from more than 16 KiB back
+/// (the rarest class, so a 15-bit code with 13 extra bits, after a length symbol with 5 extra
+/// bits). One input per pad value; pad moves the far repeat to a different place among the planted
+/// units and reseeds their order, so it is met at different bit alignments / bit-buffer fills.
+pub fn skewed_distance_inputs(thorough: bool) -> Vec<Input> {
+    let mut v = vec![];
+    let dists: [usize; 15] = [3, 4, 5, 7, 9, 13, 17, 25, 33, 49, 65, 97, 129, 193, 257];
+    let fib: [usize; 15] = [1, 2, 3, 5, 8, 13, 21, 34, 55, 89, 144, 233, 377, 610, 987];
+    for pad in (0..32usize).step_by(if thorough { 1 } else { 2 }) {
+        let mut l = crate::util::Lcg(0xd157 ^ crate::util::seed() ^ ((pad as u64) << 20));
+        // trigram-free filler: the only repeats in the data are the planted ones
+        let mut seen = vec![0u64; (1 << 24) / 64];
+        let mut d: Vec<u8> = Vec::new();
+        fn tri(d: &[u8], b: u8) -> Option<usize> {
+            let n = d.len();
+            if n < 2 {
+                None
+            } else {
+                Some(((d[n - 2] as usize) << 16) | ((d[n - 1] as usize) << 8) | b as usize)
+            }
+        }
+        fn push_new(d: &mut Vec<u8>, seen: &mut [u64], b: u8) -> bool {
+            match tri(d, b) {
+                None => {
+                    d.push(b);
+                    true
+                }
+                Some(t) if (seen[t >> 6] >> (t & 63)) & 1 != 0 => false,
+                Some(t) => {
+                    seen[t >> 6] |= 1 << (t & 63);
+                    d.push(b);
+                    true
+                }
+            }
+        }
+        let fresh = |d: &mut Vec<u8>, seen: &mut [u64], l: &mut crate::util::Lcg| loop {
+            if push_new(d, seen, l.byte()) {
+                return;
+            }
+        };
+        // a copy of d[src..src+len]: the two trigrams straddling its start must be new
+        let copy = |d: &mut Vec<u8>, seen: &mut [u64], src: usize, len: usize| -> bool {
+            for i in 0..len {
+                let b = d[src + i];
+                if i < 2 {
+                    if !push_new(d, seen, b) {
+                        return false;
+                    }
+                } else {
+                    if let Some(t) = tri(d, b) {
+                        seen[t >> 6] |= 1 << (t & 63);
+                    }
+                    d.push(b);
+                }
+            }
+            true
+        };
+        for _ in 0..pad + 16 {
+            fresh(&mut d, &mut seen, &mut l);
+        }
+        let far_src = d.len();
+        for _ in 0..204 {
+            fresh(&mut d, &mut seen, &mut l);
+        }
+        // schedule: class c appears fib[14 - c] times (near distances frequent), interleaved
+        let mut sched: Vec<usize> = vec![];
+        for (c, &f) in fib.iter().rev().enumerate() {
+            for _ in 0..f {
+                sched.push(c);
+            }
+        }
+        for i in (1..sched.len()).rev() {
+            let j = (l.next_u32() as usize) % (i + 1);
+            sched.swap(i, j);
+        }
+        // a unit = `dist` fresh bytes, then their first three again; the far repeat goes in between
+        // two units as soon as its source is more than 16 KiB back, so the bits in front of it differ
+        // from input to input (literal runs alone would keep the bit alignment fixed)
+        let mut far_done = false;
+        for &c in &sched {
+            if !far_done && d.len() >= far_src + 16_500 + 37 * pad {
+                loop {
+                    let start = d.len();
+                    if copy(&mut d, &mut seen, far_src, 200) {
+                        break;
+                    }
+                    d.truncate(start);
+                    fresh(&mut d, &mut seen, &mut l);
+                }
+                far_done = true;
+            }
+            loop {
+                let start = d.len();
+                for _ in 0..dists[c] {
+                    fresh(&mut d, &mut seen, &mut l);
+                }
+                let src = d.len() - dists[c];
+                if copy(&mut d, &mut seen, src, 3) {
+                    break;
+                }
+                d.truncate(start + dists[c]);
+            }
+        }
+        assert!(far_done);
+        for _ in 0..40 {
+            fresh(&mut d, &mut seen, &mut l);
+        }
+        v.push(Input { name: format!("skewed-dist:pad{}", pad), data: d });
+    }
+    v
+}
+
 /// Long inputs (66–200 KB): flush_block runs mid-call, blocks partially drained.
 pub fn long_inputs() -> Vec<Input> {
     vec![
